@@ -269,6 +269,19 @@ RECURSIVE RootOf(_, _)
 RootOf(m, id) == IF m.heap[id].op = "copy" THEN RootOf(m, m.heap[id].src) ELSE id
 RECURSIVE ChainOf(_, _)
 ChainOf(m, id) == IF m.heap[id].op = "copy" THEN {id} \cup ChainOf(m, m.heap[id].src) ELSE {id}
+(* a value with every cell that HAS been produced written as the list of its items *)
+RECURSIVE Resolve(_, _)
+Resolve(s, v) == IF IsZ(v) THEN LET c == s.heap[RootOf(s, v.z)]
+                                IN IF c.state = "done" THEN VL([k \in 1..Len(c.acc) |-> Resolve(s, c.acc[k])]) ELSE v
+                 ELSE IF IsL(v) THEN VL([k \in 1..Len(v.l) |-> Resolve(s, v.l[k])])
+                 ELSE v
+(* the references to cells in a value, in the order vy_str / vy_repr meets them *)
+RECURSIVE ZRefs(_)
+RECURSIVE ZRefsSeq(_)
+ZRefsSeq(vs) == IF vs = <<>> THEN <<>> ELSE ZRefs(Head(vs)) \o ZRefsSeq(Tail(vs))
+ZRefs(v) == IF IsZ(v) THEN <<v.z>> ELSE IF IsL(v) THEN ZRefsSeq(v.l) ELSE <<>>
+ForceItems(ids) == [k \in 1..Len(ids) |-> [k |-> "zforce", id |-> ids[k]]]
+
 
 (* LazyList.output: the items already produced are written as vy_print writes them (texts unquoted), the
    others are produced one by one -- their bodies run NOW, in the state of now -- and written as vy_repr
@@ -288,6 +301,9 @@ PrintVal(m, v, end, kont) ==
                          kont)
             ELSE PushCtl([m EXCEPT !.out = @ \o ZOpen, !.printed = TRUE, !.nstk = @ + 1, !.heap[r].state = "busy"],
                          <<[rc EXCEPT !.k = "hof", !.zid = r, !.emit = TRUE, !.end = end, !.also = ChainOf(m, v.z)]>> \o kont)
+    ELSE IF ZIn(v)      \* vy_print(list) = vy_print(vy_str(list)): the text is built first -- list(lazy) produces every
+                        \* item of every cell met, their bodies run now -- and written afterwards
+    THEN PushCtl([m EXCEPT !.printed = TRUE], ForceItems(ZRefs(v)) \o <<[k |-> "k_printres", v |-> v, end |-> end]>> \o kont)
     ELSE IF ~Printable(v) THEN Undef(m, "print-of-function")
     ELSE PushCtl([m EXCEPT !.out = @ \o Str(v) \o end, !.printed = TRUE], kont)
 
@@ -458,7 +474,7 @@ HofStep(m0, h) ==      \* h is the "hof" item (already removed from ctl)
                 [m0 EXCEPT !.heap = [k \in 1..Len(@) |-> IF k = h.zid THEN [@[k] EXCEPT !.state = "done", !.acc = h.acc]
                                                           ELSE IF k \in h.also THEN [@[k] EXCEPT !.state = "done"] ELSE @[k]],
                            !.out = IF h.emit THEN @ \o ZClose \o h.end ELSE @,
-                           !.nstk = @ - 1]
+                           !.nstk = IF h.emit THEN @ - 1 ELSE @]
            [] h.op \in {"map", "filter", "scan"} -> Push(m0, VL(h.acc))
            [] h.op = "sortby" ->
                 IF AllInts(h.keys) THEN Push(m0, VL(SortByKeys(h.acc, h.keys)))
@@ -673,7 +689,7 @@ NodeStep(m0, n) ==
 (* a reference to a lazily produced list may be moved, copied (the copy reads through the original: the
    same cell), dropped and printed; anything else that could look into it is outside the model *)
 HasZ(m) == \E k \in 1..Len(Stk(m)) : ZIn(Stk(m)[k])
-ZSafeElems == {"pop", "dup", "swap", "print", "printkeep", "printnonl"}
+ZSafeElems == {"pop", "dup", "swap", "print", "printkeep", "printnonl", "wrap", "wrapstack", "stacklen", "pair"}
 ZSafeItem(it) ==
     CASE it.k = "elem" -> it.name \in ZSafeElems
       [] it.k = "node" ->
@@ -720,6 +736,18 @@ ItemStep(m0, it) ==
       [] it.k = "k_pushv" -> Push(m0, it.v)
       [] it.k = "k_print" -> PrintVal(m0, m0.rv, NL, <<>>)
       [] it.k = "k_done" -> [m0 EXCEPT !.status = "done"]
+      [] it.k = "k_printres" ->
+           LET r == Resolve(m0, it.v)
+           IN IF ~Printable(r) THEN Undef(m0, "print-of-function") ELSE [m0 EXCEPT !.out = @ \o Str(r) \o it.end]
+      [] it.k = "zforce" ->      \* list(lazy): everything is produced (through the original, for a copy); nothing is written
+           LET r == RootOf(m0, it.id)
+               rc == m0.heap[r]
+               chain == ChainOf(m0, it.id)
+           IN IF rc.state = "busy" THEN Undef(m0, "lazy-list-forced-while-it-is-produced")
+              ELSE IF rc.state = "done"
+              THEN [m0 EXCEPT !.heap = [k \in 1..Len(@) |-> IF k \in chain THEN [@[k] EXCEPT !.state = "done"] ELSE @[k]]]
+              ELSE PushCtl([m0 EXCEPT !.heap[r].state = "busy"],
+                           <<[rc EXCEPT !.k = "hof", !.zid = r, !.emit = FALSE, !.also = chain]>>)
       [] it.k = "k_setreg" -> [m0 EXCEPT !.reg = m0.rv]
       [] it.k = "hof" -> HofStep(m0, it)
       [] it.k = "hofk" -> HofK(m0, it)
@@ -743,6 +771,9 @@ JoinNL(vs) == IF vs = <<>> THEN <<>>
               ELSE IF Len(vs) = 1 THEN Str(vs[1]) ELSE Str(vs[1]) \o NL \o JoinNL(Tail(vs))
 
 Finish(m) ==
+    \* flag W: output = vy_str(stack) is built whether or not anything is written -- every cell on the stack is produced
+    IF "W" \in m.cfg.flags /\ (\E k \in 1..Len(Stk(m)) : ZIn(Resolve(m, Stk(m)[k])))
+    THEN PushCtl(m, ForceItems(ZRefsSeq(Stk(m)))) ELSE
     LET empty == Stk(m) = <<>>
         p == Pop1(m)
         o == p[1]
@@ -750,7 +781,7 @@ Finish(m) ==
         fl == m.cfg.flags
         doprint == (~m1.printed /\ "O" \notin fl) \/ "o" \in fl
         text == CASE "W" \in fl -> IF empty THEN Str(VL(<<>>))
-                                   ELSE IF \A k \in 1..Len(Stk(m1)) : Printable(Stk(m1)[k]) THEN Str(VL(Append(Stk(m1), o)))
+                                   ELSE IF Printable(Resolve(m, VL(Append(Stk(m1), o)))) THEN Str(Resolve(m, VL(Append(Stk(m1), o))))
                                    ELSE <<0>>
                   \* vy_sum / join walk over helpers.iterable(output): digits of a number, characters of a text
                   [] "s" \in fl -> IF FoldOK(o) THEN (IF IsU(Clean(SumList(FoldItems(o)))) THEN <<0>> ELSE Str(Clean(SumList(FoldItems(o))))) ELSE <<0>>
@@ -759,9 +790,9 @@ Finish(m) ==
     IN IF ~(fl \subseteq {"H", "M", "m", "O", "o", "W", "s", "j"}) THEN Undef(m1, "flag-outside-core")
        ELSE IF IsF(o) /\ fl \cap {"W", "s", "j"} = {}
        THEN (IF doprint THEN PrintVal(m1, o, NL, <<[k |-> "k_done"]>>) ELSE [m1 EXCEPT !.status = "done"])
-       ELSE IF IsZ(o) /\ fl \cap {"W", "s", "j"} = {}
+       ELSE IF ZIn(o) /\ fl \cap {"W", "s", "j"} = {}
        THEN (IF doprint THEN PrintVal(m1, o, NL, <<[k |-> "k_done"]>>) ELSE [m1 EXCEPT !.status = "done"])
-       ELSE IF text = <<0>> \/ ~Printable(o) THEN Undef(m1, "implicit-output-outside-core")
+       ELSE IF text = <<0>> \/ ~Printable(IF "W" \in fl THEN Resolve(m, o) ELSE o) THEN Undef(m1, "implicit-output-outside-core")
        ELSE LET m2 == IF "W" \in fl /\ ~empty THEN Push(m1, o) ELSE m1      \* stack.append(output)
             IN [m2 EXCEPT !.status = "done", !.out = IF doprint THEN @ \o text \o NL ELSE @]
 
